@@ -1337,7 +1337,10 @@ impl<'a, 'b, W: Write> Serializer for &'a mut YamlSerializer<'b, W> {
         if self.in_flow > 0 {
             self.write_space_if_pending()?;
             self.out.write_str("{")?;
-            self.write_plain_or_quoted(variant)?;
+            // Inside a flow collection the variant name is a flow mapping key: the key rules decide
+            // whether it can be plain (`,`, `[`, `]`, `{`, `}` would end it there).
+            let name = scalar_key_to_string(variant, self.yaml_12)?;
+            self.out.write_str(&name)?;
             self.out.write_str(": ")?;
             value.serialize(&mut *self)?;
             self.out.write_str("}")?;
@@ -1532,7 +1535,10 @@ impl<'a, 'b, W: Write> Serializer for &'a mut YamlSerializer<'b, W> {
         if self.in_flow > 0 {
             self.write_space_if_pending()?;
             self.out.write_str("{")?;
-            self.write_plain_or_quoted(variant)?;
+            // Inside a flow collection the variant name is a flow mapping key: the key rules decide
+            // whether it can be plain (`,`, `[`, `]`, `{`, `}` would end it there).
+            let name = scalar_key_to_string(variant, self.yaml_12)?;
+            self.out.write_str(&name)?;
             self.out.write_str(": [")?;
             let depth = self.depth;
             return Ok(TupleVariantSer {
@@ -1700,7 +1706,10 @@ impl<'a, 'b, W: Write> Serializer for &'a mut YamlSerializer<'b, W> {
         if self.in_flow > 0 {
             self.write_space_if_pending()?;
             self.out.write_str("{")?;
-            self.write_plain_or_quoted(variant)?;
+            // Inside a flow collection the variant name is a flow mapping key: the key rules decide
+            // whether it can be plain (`,`, `[`, `]`, `{`, `}` would end it there).
+            let name = scalar_key_to_string(variant, self.yaml_12)?;
+            self.out.write_str(&name)?;
             self.out.write_str(": {")?;
             let depth = self.depth;
             return Ok(StructVariantSer {
